@@ -24,10 +24,11 @@ ends in a number (`C02_counterexample_rawCapture`), a multi-line definition nest
 ## What is proved
 
 `C02_roundtrip_partial`: the statement for every program whose instructions all satisfy the explicit
-decidable predicate `provedKind` (29 of the 40 printable kinds: all classical instructions with literal
+decidable predicate `provedKind` (31 of the 40 printable kinds: all classical instructions with literal
 operands, DECLARE with SHARING/OFFSET, control flow, MEASURE, RESET, FENCE, PRAGMA (incl. EXTERN), INCLUDE,
 HALT/NOP/WAIT, gate applications with modifiers and expression parameters, SET-FREQUENCY, SET-PHASE, SET-SCALE, SHIFT-FREQUENCY, SHIFT-PHASE,
-SWAP-PHASES), with `≈` being plain equality.  The remaining kinds are covered by the correspondence check
+SWAP-PHASES, DELAY with and without frame names, RAW-CAPTURE into a region not named `i`), with `≈` being plain
+equality.  The remaining kinds are covered by the correspondence check
 only (every accepted text is run through the real pipeline AND the model, which must agree).
 -/
 namespace QV.C02
